@@ -196,6 +196,31 @@ let run_fhist u line =
     let obs = w_run u w_init fops in
     ticks ^ " | " ^ String.concat " ; " (List.map fmt_fobs obs)
 
+(* ---------- stream: seg ---------- *)
+let run_seg u line = fmt_strs (useg u (parse_str (String.trim line)))
+
+(* ---------- stream: direct (C18) ---------- *)
+let fmt_dres = function
+  | DLine s -> "L:" ^ fmt_str s
+  | DEof -> "EOF" | DErr -> "ERR" | DPanic -> "PANIC"
+
+let run_direct u line =
+  match words line with
+  | [v; bytes] ->
+    (match decode (parse_bytes bytes) with
+     | None -> "MODEL-NA-invalid-utf8"
+     | Some input ->
+       let vf = if v = "1" then Some bracket_validator else None in
+       let rs = direct_all (useg u) vf input in
+       (* the child stops at the first Eof / panic; an error does not stop it *)
+       let rec upto = function
+         | [] -> []
+         | (DEof as r) :: _ -> [r]
+         | (DPanic as r) :: _ -> [r]
+         | r :: t -> r :: upto t in
+       String.concat " " (List.map fmt_dres (upto rs)))
+  | _ -> failwith "bad direct case"
+
 (* ---------- main ---------- *)
 let () =
   let stream = Sys.argv.(1) in
@@ -206,6 +231,8 @@ let () =
   let f = match stream with
     | "hist" -> run_hist u
     | "fhist" -> run_fhist u
+    | "seg" -> run_seg u
+    | "direct" -> run_direct u
     | s -> failwith ("unknown stream " ^ s) in
   (try
      while true do
